@@ -5,6 +5,7 @@ from .. import core, rec_solver, tlc
 from ..trace import TraceWriter
 
 ASSUMPTIONS = [
+    'TLAPS (tla/proofs/FluxSolverProofs.tla): the concrete machine of FluxSolverCore.tla performs at most MaxIter iterations for EVERY input, arithmetic, permeate-pressure map and natural MaxIter',
     'TLAPS (tla/proofs/FluxLoopProofs.tla, checked by tlapm on every run): for EVERY natural MaxIter the bounded abstract loop of FluxLoopAbstract.tla performs at most MaxIter iterations and MaxIter - n strictly decreases while it iterates (TLC enumerates MaxIter = 4 only)',
     "leg A: the abstract loop (the change per iteration is arbitrary) terminates within the bound for every map; unbounded variant violates liveness",
     "leg A/C: TLC runs the FluxSolver machine over the reference thermodynamics (UNIQUAC as implemented) on near-equilibrium scenarios; the inputs on which it runs into the bound are replayed on the real solver",
@@ -154,7 +155,7 @@ def run(ctx, pool):
     res["coverage"]["iterations_observable"] = hist.get("Eval", 0) > 0
     res["failures"] = failures
     res["trace_lookup"] = lambda v: tw.traces[v["record"]["t"]][:6] + tw.traces[v["record"]["t"]][-3:]
-    core.attach_tlaps(ctx, res, [('FluxLoopProofs.tla', ['FluxLoopAbstract.tla'])])
+    core.attach_tlaps(ctx, res, [('FluxLoopProofs.tla', ['FluxLoopAbstract.tla']), ('FluxSolverProofs.tla', ['FluxSolverCore.tla'])])
     return res
 
 
